@@ -72,9 +72,8 @@ def run_real(case, res):
             if len(pats) > 12:
                 res["stats"]["too_many_patches"] = res["stats"].get("too_many_patches", 0) + 1
                 continue
-            overlap = any(model.conflict(a, b) for a, b in itertools.combinations(sorted(set(pats)), 2))
-            if inverted or overlap:
-                res["fails"].append({"clause": "real_patches_overlap_or_inverted", "features": {"inverted": inverted}, "detail": {"patches": pats, "fixed": fixed[:200]}, "case": one})
+            if inverted:
+                res["fails"].append({"clause": "real_patch_inverted_range", "features": {"inverted": inverted}, "detail": {"patches": pats, "fixed": fixed[:200]}, "case": one})
                 continue
             verdict, S = model.explain(lf.templated_file.source_str, fixed, pats)
             if verdict is not True:
